@@ -10,8 +10,8 @@ TRUSTED_COMMON = [
 
 PROPS = {
     'C01': {
-        'lean_modules': ['C01'],
-        'required_theorems': ['C01_no_false_negative', 'C01_empty_absent', 'C01_probe_in_range', 'C01_no_false_negative_concrete'],
+        'lean_modules': ['C01', 'ArithTie'],
+        'required_theorems': ['tie_bloomIndexInt', 'C01_no_false_negative', 'C01_empty_absent', 'C01_probe_in_range', 'C01_no_false_negative_concrete'],
         'suites': ['bloom', 'conc'],
         'race_suites': ['conc'],
         'level': 'proof',
@@ -25,8 +25,8 @@ PROPS = {
     },
 
     'C02': {
-        'lean_modules': ['C02'],
-        'required_theorems': ['C02_no_false_negative', 'C02_insert_ok_stored', 'C02_insert_preserves_lookup', 'C02_alt_involutive_pow2',
+        'lean_modules': ['C02', 'ArithTie'],
+        'required_theorems': ['tie_cuckooFirstIndex', 'tie_cuckooSecondIndex', 'tie_cuckooKickIndexMem', 'tie_cuckooKickIndexRedis', 'C02_no_false_negative', 'C02_insert_ok_stored', 'C02_insert_preserves_lookup', 'C02_alt_involutive_pow2',
                               'C02_alt_not_involutive_npow2', 'C02_no_kick_any_n_partial', 'C02_npow2_kick_loses_element'],
         'suites': ['cuckoo', 'conc'],
         'race_suites': ['conc'],
@@ -40,8 +40,8 @@ PROPS = {
                         'math/rand stream reproduced by rand.Seed for the correspondence check'],
     },
     'C03': {
-        'lean_modules': ['C03'],
-        'required_theorems': ['C03_lower', 'C03_upper', 'C03_exact_single', 'C03_empty_zero', 'C03_concrete'],
+        'lean_modules': ['C03', 'ArithTie'],
+        'required_theorems': ['tie_cmsPosition', 'C03_lower', 'C03_upper', 'C03_exact_single', 'C03_empty_zero', 'C03_concrete'],
         'suites': ['cms', 'conc', 'redisconc'],
         'race_suites': ['conc'],
         'level': 'proof',
@@ -63,8 +63,8 @@ PROPS = {
                         'element names valid UTF-8 without protocol separators in the correspondence suite'],
     },
     'C05': {
-        'lean_modules': ['C05'],
-        'required_theorems': ['C05_update_ok_iff', 'C05_registers_confined', 'C05_index_range'],
+        'lean_modules': ['C05', 'ArithTie'],
+        'required_theorems': ['tie_hllRegisterIndex', 'tie_hllStoredValueMem', 'tie_hllStoredValueRedis', 'C05_update_ok_iff', 'C05_registers_confined', 'C05_index_range'],
         'suites': ['hllacc', 'hll', 'redisconc'],
         'level': 'proof',
         'explanation': 'The accuracy clause is FALSE of the pinned code (finding D4: the register index is the rank and the stored value is hash bits); what is proved is the exact characterisation of what the code computes '
@@ -208,8 +208,8 @@ PROPS = {
     },
 
     'C15': {
-        'lean_modules': ['C15', 'C15Prob'],
-        'required_theorems': ['C15_bloom_size', 'C15_cms_cols', 'C15_cms_rows', 'C15_cubic_term_exact', 'C15_probes_scheme', 'C15_cuckoo_fpl_counterexample',
+        'lean_modules': ['C15', 'C15Prob', 'ArithTie'],
+        'required_theorems': ['tie_cmsPositionsOf', 'tie_bloomIndexInt', 'C15_bloom_size', 'C15_cms_cols', 'C15_cms_rows', 'C15_cubic_term_exact', 'C15_probes_scheme', 'C15_cuckoo_fpl_counterexample',
                               'C15_cms_eps_delta_ideal', 'C15_cms_eps_delta_ideal_count'],
         'suites': ['sizing'],
         'level': 'other',
